@@ -12,7 +12,7 @@ RULE = (
     "for retry exhaustion; the dt-controller reference model is replayed on the observed history; non-trivial = at least one refusal "
     "or one change of the proposed dt; distinct = scenario digests"
 )
-LIFECYCLES = {"p_prior": 0.15, "p_metres": 0.08}  # shared object life cycles (scen.add_lifecycles) with their default rates
+LIFECYCLES = {"p_prior": 0.15, "p_metres": 0.08, "p_guest": 0.15}  # shared object life cycles (scen.add_lifecycles) with their default rates
 BUDGET = {"quick": {"runs": 700, "chunk": 10}, "thorough": {"runs": 120000, "chunk": 20}}
 COMPONENTS = {"real": ["TDGLSolver.update / adaptive_euler_step / dt controller", "Runner"], "stub": ["wall clock", "refusals injected at the solve_for_psi_squared seam (buggify)"]}
 
